@@ -23,6 +23,14 @@
                                  if try_compute.depth > 0: try_compute.not_ready_yet[id(self)] = self
                                  raise
      TryCompute.__enter__: if self.depth == 0: self.not_ready_yet = {}                    [clear_memo]
+
+   NOT modelled: Awaiting.known_cycles / found_cycles_stack (fix 22284d4).  That frame-scoped memo is written only by
+   remember_cycle(), called where symbolic_product() *catches* the DeferredCycle of a factor and goes on with the other
+   one.  No fn of this model catches an exception (an exception of a dependency always ends the whole evaluation), so
+   here known_cycles would be empty at all times, `id(self.deferred) in Awaiting.known_cycles` False, and the model is
+   still what wait() does on graphs of plain Deferred/Promise objects.  tools/gens/gen_partial.py pins the protocol
+   (the two dunder methods, remember_cycle, its single call site); its effect is covered by exploration only
+   (rings through product chains must be rejected with recursive-definition within the watchdog).
      Awaiting.__enter__: if self.deferred.is_awaiting: raise DeferredCycle(); is_awaiting = True
      Awaiting.__exit__ : is_awaiting = False               (on every exit path, also exceptions)
      Deferred._wait    : if settled: return value;  value = fn(); settled = True; return value
